@@ -2,13 +2,14 @@ package simrt
 
 import (
 	"bufio"
-	"encoding/json"
 	"bytes"
 	"context"
+	"encoding/json"
 	"errors"
 	"fmt"
 	"io"
 	"net/http"
+	"net/url"
 	"os"
 	"runtime/debug"
 	"strconv"
@@ -91,7 +92,7 @@ type link struct {
 	dir       string // req | resp
 	pending   []byte
 	sent      []byte // everything handed to the link (for completeness judgement)
-	total     int // bytes handed to the link so far
+	total     int    // bytes handed to the link so far
 	delivered int
 	headLen   int // length of the header block of the first message (for fault placement)
 	chunks    []int
@@ -104,7 +105,7 @@ type link struct {
 	stalled   bool
 	senderEOF bool // sender finished; deliver EOF after the last byte
 	eofSent   bool
-	dead      bool // fault closed the stream
+	dead      bool  // fault closed the stream
 	closeErr  error // error delivered instead of EOF when the sender is done
 }
 
@@ -403,6 +404,14 @@ func (k *Kernel) serveConn(cn *Conn) {
 		return
 	}
 	cn.ReqParsed = true
+	if !k.stripMount(req) {
+		cn.status = 404
+		cn.s2c.send([]byte("HTTP/1.1 404 Not Found\r\nContent-Type: text/plain; charset=utf-8\r\nContent-Length: 21\r\n\r\ngateway: no such path"))
+		cn.s2c.senderEOF = true
+		cn.WireHead = &WireReq{Verb: req.Method, Target: req.RequestURI, Header: req.Header.Clone(), ConnID: cn.id}
+		cn.call.Wire = append(cn.call.Wire, *cn.WireHead)
+		return
+	}
 	ctx, cancel := context.WithCancel(context.WithValue(context.Background(), callKey, cn.call))
 	cn.srvCancel = cancel
 	defer cancel()
@@ -488,6 +497,7 @@ type respWriter struct {
 	wrote   bool
 	body    bytes.Buffer
 	aborted bool
+	flushed bool // the handler flushed before it returned: net/http can no longer announce a length
 	broken  bool // a Write failed: the connection is gone, nothing reaches the client
 	// write-error fault
 	failAt int // -1 none
@@ -578,7 +588,13 @@ func (w *respWriter) Flush() {
 	if !w.wrote {
 		w.WriteHeader(http.StatusOK)
 	}
+	w.flushed = true
 }
+
+// respBufSize is net/http's per-connection response buffer: a response that fits in it
+// when the handler returns is sent with a Content-Length, a larger (or flushed) one goes out
+// in chunked transfer encoding unless the handler announced a length itself.
+const respBufSize = 2048
 
 func (w *respWriter) frame() []byte {
 	if !w.wrote {
@@ -591,8 +607,15 @@ func (w *respWriter) frame() []byte {
 	}
 	fmt.Fprintf(&out, "HTTP/1.1 %d %s\r\n", w.status, text)
 	h := w.snap.Clone()
+	chunked := false
 	if bodyAllowed(w.status) {
-		h.Set("Content-Length", strconv.Itoa(w.body.Len()))
+		if h.Get("Content-Length") == "" && (w.body.Len() > respBufSize || w.flushed) && w.req.Method != "HEAD" && w.req.ProtoAtLeast(1, 1) {
+			chunked = true
+			h.Set("Transfer-Encoding", "chunked")
+			w.k.Stats.Probe("response_sent_chunked")
+		} else {
+			h.Set("Content-Length", strconv.Itoa(w.body.Len()))
+		}
 	} else {
 		h.Del("Content-Length")
 	}
@@ -612,7 +635,22 @@ func (w *respWriter) frame() []byte {
 	}
 	out.WriteString("\r\n")
 	if bodyAllowed(w.status) && w.req.Method != "HEAD" {
-		out.Write(w.body.Bytes())
+		if chunked {
+			b := w.body.Bytes()
+			for len(b) > 0 {
+				n := respBufSize
+				if n > len(b) {
+					n = len(b)
+				}
+				fmt.Fprintf(&out, "%x\r\n", n)
+				out.Write(b[:n])
+				out.WriteString("\r\n")
+				b = b[n:]
+			}
+			out.WriteString("0\r\n\r\n")
+		} else {
+			out.Write(w.body.Bytes())
+		}
 	}
 	return out.Bytes()
 }
@@ -695,3 +733,31 @@ func (l *link) responseComplete(method string) (complete bool, status int) {
 
 // Committed400 reports whether the handler chain itself committed a 400.
 func (cn *Conn) Committed400() bool { return cn.Committed && cn.status == 400 }
+
+// stripMount plays the gateway in front of the servers: a request under Plan.MountPrefix is
+// passed on with the prefix removed, anything else is not for these servers.
+func (k *Kernel) stripMount(req *http.Request) bool {
+	p := k.Plan.MountPrefix
+	if p == "" {
+		return true
+	}
+	uri := req.RequestURI
+	if !strings.HasPrefix(uri, p) {
+		return false
+	}
+	rest := uri[len(p):]
+	if rest == "" || rest[0] == '?' {
+		rest = "/" + rest
+	}
+	if rest[0] != '/' {
+		return false
+	}
+	u, err := url.ParseRequestURI(rest)
+	if err != nil {
+		return false
+	}
+	req.RequestURI = rest
+	req.URL = u
+	k.Stats.Probe("gateway_prefix_stripped")
+	return true
+}
